@@ -4,6 +4,7 @@ import (
 	"context"
 	"errors"
 	"fmt"
+	"hash/fnv"
 	"reflect"
 	"runtime"
 	"sort"
@@ -122,16 +123,28 @@ type Run struct {
 	kept           []keptSlice // group slices returned by godi that the harness kept untouched
 	sliceFs        []Finding   // kept slices that changed afterwards
 	sib            *sibling    // KeepSibling: the provider of the intermediate Build
+	BuildDoor      int         // 0 Build, 1 BuildWithContext, 2 BuildWithOptions(nil), 3 BuildWithOptions(BuildTimeout: a minute)
 	sibFs          []Finding
 	KeepValues     bool
 	Values         map[int]*rt.Inst // instance values registered (reg index -> inst)
 }
+
+// BuildDoors (set by the properties that judge Build's verdict): specs are built through Build,
+// BuildWithContext, BuildWithOptions(nil) and BuildWithOptions(BuildTimeout) in turn.
+var BuildDoors bool
 
 type ctxKeyT struct{ n int }
 
 // NewRun registers the spec into a fresh collection (under a fresh recorder).
 func NewRun(s *Spec, m *Model, faults []rt.Fault, closeFaults []rt.CloseFault) *Run {
 	r := &Run{Spec: s, Model: m, Rec: rt.NewRecorder(), Values: map[int]*rt.Inst{}}
+	if BuildDoors {
+		// the three ways of building a provider must agree: which one a spec goes through is a
+		// function of the spec (so that a case and its replay use the same one)
+		h := fnv.New32a()
+		_, _ = h.Write([]byte(s.Canon()))
+		r.BuildDoor = int(h.Sum32() % 4)
+	}
 	r.Rec.SetFaults(faults, closeFaults)
 	r.Coll = godi.NewCollection()
 	r.RegErrs = make([]error, len(s.Regs))
@@ -263,7 +276,16 @@ func (r *Run) Build() {
 				r.Poisoned = true
 			}
 		}()
-		r.Prov, r.BuildErr = r.Coll.Build()
+		switch r.BuildDoor {
+		case 1:
+			r.Prov, r.BuildErr = r.Coll.BuildWithContext(context.Background())
+		case 2:
+			r.Prov, r.BuildErr = r.Coll.BuildWithOptions(nil)
+		case 3:
+			r.Prov, r.BuildErr = r.Coll.BuildWithOptions(&godi.ProviderOptions{BuildTimeout: time.Minute})
+		default:
+			r.Prov, r.BuildErr = r.Coll.Build()
+		}
 	}()
 	switch {
 	case r.BuildPanic != nil:
